@@ -537,3 +537,317 @@ Proof.
       exact (Hsym f' g' Hfg' a b).
 Qed.
 End Set11.
+
+(* ---- symmetric change of the two edge relations of a pair (f, g) ---- *)
+Lemma sym_by_delta m s s' f g
+      (Dl Ad : oid -> oid -> Prop) :
+  wf_opp m -> sym m s -> f_opp (fd m f) = Some g -> f <> g ->
+  (forall a b, R s' f a b <-> (R s f a b /\ ~ Dl a b) \/ Ad a b) ->
+  (forall a b, R s' g b a <-> (R s g b a /\ ~ Dl a b) \/ Ad a b) ->
+  (forall h a, h <> f -> h <> g -> vals s' (a, h) = vals s (a, h)) ->
+  sym m s'.
+Proof.
+  intros Hwf Hsym Hfg Hne Hf Hg Hother f' g' Hfg' a b.
+  destruct (Hwf f g Hfg) as [Hgf _].
+  destruct (Nat.eq_dec f' f) as [Ef|Nf].
+  - subst f'. rewrite Hfg in Hfg'. inversion Hfg'; subst g'.
+    rewrite Hf, Hg. rewrite (Hsym f g Hfg a b). tauto.
+  - destruct (Nat.eq_dec f' g) as [Eg|Ng].
+    + subst f'. rewrite Hgf in Hfg'. inversion Hfg'; subst g'.
+      rewrite Hf, Hg. rewrite (Hsym f g Hfg b a). tauto.
+    + assert (Ng' : g' <> f /\ g' <> g).
+      { destruct (Hwf f' g' Hfg') as [Hg'f' _]. split; intros E; subst g'; congruence. }
+      unfold R. rewrite (Hother f' a Nf Ng), (Hother g' b (proj1 Ng') (proj2 Ng')).
+      exact (Hsym f' g' Hfg' a b).
+Qed.
+
+Lemma In_raw_insert_obj x b i l :
+  In (VObj b) (raw_insert true i (VObj x) l) <-> In (VObj b) l \/ b = x.
+Proof.
+  unfold raw_insert. simpl. destruct (vmem (VObj x) l) eqn:E.
+  - apply vmem_obj in E. split; [tauto|]. intros [H|H]; [assumption | subst b; assumption].
+  - unfold py_insert. rewrite insert_at_In. split.
+    + intros [H|H]; [right; congruence | tauto].
+    + intros [H|H]; [tauto | left; congruence].
+Qed.
+
+(* ---- appending / inserting into an n-n reference: x.f.append(y), both ends many-valued ---- *)
+Section AddNN.
+Variable m : mm.
+Hypothesis Hnc : no_containment m.
+Hypothesis Hwf : wf_opp m.
+
+Theorem add_nn_preserves_sym s x f g pos y :
+  sym m s ->
+  f_opp (fd m f) = Some g -> f <> g ->
+  f_many (fd m f) = true -> f_many (fd m g) = true ->
+  check_elem m f (VObj y) = true ->
+  sym m (snd (coll_add_full m s (x, f) pos (VObj y))).
+Proof.
+  intros Hsym Hfg Hne Hmf Hmg Hchk.
+  destruct (Hwf f g Hfg) as [Hgf [Href Huf]]. destruct (Hwf g f Hgf) as [_ [_ Hug]].
+  specialize (Huf Hmf). specialize (Hug Hmg).
+  assert (HV : forall k, vals (snd (coll_add_full m s (x, f) pos (VObj y))) k =
+     let V1 := upd (vals s) (y, g) (raw_append true (VObj x) (vals s (y, g))) in
+     upd V1 (x, f) (match pos with Some i => raw_insert true i (VObj y) (V1 (x, f))
+                                 | None => raw_append true (VObj y) (V1 (x, f)) end) k).
+  { intros k. unfold coll_add_full. rewrite Hchk. cbn [negb snd]. unfold link_elem. rewrite Href. cbn [obj_of].
+    rewrite (update_container_id m Hnc). unfold update_opposite_add. rewrite Hfg, Hmg.
+    assert (Hc : cell_eqb (y, g) (x, f) = false).
+    { destruct (cell_eqb_spec (y, g) (x, f)) as [E|N]; [inversion E; congruence | reflexivity]. }
+    rewrite Hc. cbn [vals set_isset notify push_log set_vals].
+    rewrite (vals_coll_append_raw m Hnc). cbn [snd]. rewrite Huf, Hug. reflexivity. }
+  set (s' := snd (coll_add_full m s (x, f) pos (VObj y))) in *.
+  apply (sym_by_delta m s s' f g (fun _ _ => False) (fun a b => a = x /\ b = y) Hwf Hsym Hfg Hne).
+  - intros a b. unfold R. rewrite HV. cbv zeta.
+    destruct (cell_eqb_spec (x, f) (a, f)) as [E|N].
+    + inversion E; subst a. rewrite upd_same.
+      rewrite (upd_other _ (y, g) (x, f)) by (intros E2; inversion E2; congruence).
+      destruct pos as [i|]; [rewrite In_raw_insert_obj | rewrite raw_append_obj_In]; intuition congruence.
+    + rewrite upd_other by exact N. rewrite upd_other by (intros E2; inversion E2; congruence).
+      split; [intros H; left; tauto|]. intros [[H _]|[E1 _]]; [exact H | subst a; exfalso; apply N; reflexivity].
+  - intros a b. unfold R. rewrite HV. cbv zeta.
+    rewrite (upd_other _ (x, f) (b, g)) by (intros E2; inversion E2; congruence).
+    destruct (cell_eqb_spec (y, g) (b, g)) as [E|N].
+    + inversion E; subst b. rewrite upd_same. rewrite raw_append_obj_In. intuition congruence.
+    + rewrite upd_other by exact N.
+      split; [intros H; left; tauto|]. intros [[H _]|[_ E1]]; [exact H | subst b; exfalso; apply N; reflexivity].
+  - intros h a Hhf Hhg. rewrite HV. cbv zeta. rewrite !upd_other; [reflexivity | |];
+      intros E; inversion E; congruence.
+Qed.
+End AddNN.
+
+(* ---- 1-n: x.f = y with f single-valued and the opposite g many-valued ---- *)
+Section Set1N.
+Variable m : mm.
+Hypothesis Hnc : no_containment m.
+Hypothesis Hwf : wf_opp m.
+
+Theorem set_1n_preserves_sym s x f g y :
+  sym m s -> shape m s ->
+  f_opp (fd m f) = Some g -> f <> g ->
+  f_many (fd m f) = false -> f_many (fd m g) = true ->
+  check_single m f (VObj y) = true ->
+  sym m (snd (set_full m s (x, f) (VObj y))).
+Proof.
+  intros Hsym Hsh Hfg Hne Hsf Hmg Hchk.
+  destruct (Hwf f g Hfg) as [Hgf [Href _]]. destruct (Hwf g f Hgf) as [_ [_ Hug]]. specialize (Hug Hmg).
+  destruct (proj1 (Hsh x f) Hsf) as [pv Hpv].
+  assert (Hsg : single s (x, f) = pv) by (unfold single; rewrite Hpv; reflexivity).
+  (* the value store afterwards *)
+  assert (HV : forall k, vals (snd (set_full m s (x, f) (VObj y))) k =
+     let V1 := upd (vals s) (x, f) [VObj y] in
+     let V3 := match obj_of pv with
+               | Some q => if y =? q then V1
+                           else if vmem (VObj x) (V1 (q, g)) then upd V1 (q, g) (raw_remove (VObj x) (V1 (q, g))) else V1
+               | None => V1 end in
+     upd V3 (y, g) (raw_append true (VObj x) (V3 (y, g))) k).
+  { intros k. unfold set_full. rewrite Hchk, Href. cbn [negb]. rewrite (update_container_id m Hnc). rewrite Hfg.
+    cbn [obj_of]. rewrite Hmg, Hsg. cbn [snd]. rewrite (vals_coll_append_raw m Hnc). cbn [snd]. rewrite Hug.
+    destruct (obj_of pv) as [q|]; [|reflexivity].
+    destruct (y =? q); [reflexivity|]. rewrite (vals_coll_remove_raw m Hnc).
+    cbn [vals set_store notify push_log set_isset set_vals].
+    destruct (vmem (VObj x) (upd (vals s) (x, f) [VObj y] (q, g))); reflexivity. }
+  set (s' := snd (set_full m s (x, f) (VObj y))) in *. clear Hsg.
+  assert (Hgcell : forall a : oid, ((x, f) : cell) <> (a, g)) by (intros a E; inversion E; congruence).
+  apply (sym_by_delta m s s' f g (fun a _ => a = x) (fun a b => a = x /\ b = y) Hwf Hsym Hfg Hne).
+  - (* f-side: only the slot (x, f) changes *)
+    intros a b. unfold R. rewrite HV. cbv zeta.
+    rewrite (upd_other _ (y, g) (a, f)) by (intros E; inversion E; congruence).
+    assert (H3 : forall k, (forall q0, k <> (q0, g)) ->
+       (match obj_of pv with
+        | Some q => if y =? q then upd (vals s) (x, f) [VObj y]
+                    else if vmem (VObj x) (upd (vals s) (x, f) [VObj y] (q, g))
+                         then upd (upd (vals s) (x, f) [VObj y]) (q, g)
+                                  (raw_remove (VObj x) (upd (vals s) (x, f) [VObj y] (q, g)))
+                         else upd (vals s) (x, f) [VObj y]
+        | None => upd (vals s) (x, f) [VObj y] end) k = upd (vals s) (x, f) [VObj y] k).
+    { intros k Hk. destruct (obj_of pv) as [q|]; [|reflexivity]. destruct (y =? q); [reflexivity|].
+      destruct (vmem (VObj x) (upd (vals s) (x, f) [VObj y] (q, g))); [|reflexivity].
+      apply upd_other. intros E. apply (Hk q). symmetry. exact E. }
+    rewrite H3 by (intros q0 E; inversion E; congruence).
+    destruct (cell_eqb_spec (x, f) (a, f)) as [E|N].
+    + inversion E; subst a. rewrite upd_same. simpl. intuition congruence.
+    + rewrite upd_other by exact N. split; [intros H; left; split; [exact H | intros ->; apply N; reflexivity]|].
+      intros [[H _]|[E1 _]]; [exact H | subst a; exfalso; apply N; reflexivity].
+  - (* g-side: x leaves its previous partner's collection and enters y's *)
+    intros a b. unfold R. rewrite HV. cbv zeta.
+    destruct (obj_of pv) as [q|] eqn:Eq.
+    + apply obj_of_Some' in Eq. rewrite Eq in Hpv.
+      assert (Hqx : In (VObj x) (vals s (q, g))).
+      { apply (Hsym f g Hfg x q). unfold R. rewrite Hpv. left; reflexivity. }
+      assert (Honly : forall b0, In (VObj x) (vals s (b0, g)) -> b0 = q).
+      { intros b0 H. apply (Hsym g f Hgf b0 x) in H. unfold R in H. rewrite Hpv in H.
+        destruct H as [H|[]]. congruence. }
+      destruct (Nat.eqb_spec y q) as [Eyq|Nyq].
+      * subst q. destruct (cell_eqb_spec (y, g) (b, g)) as [E|N].
+        -- inversion E; subst b. rewrite upd_same. rewrite upd_other by (apply Hgcell).
+           rewrite raw_append_obj_In.
+           destruct (Nat.eq_dec a x) as [->|Na]; [split; intros _; [right; split; reflexivity | right; reflexivity]|].
+           split; [intros [H|H]; [left; split; assumption | contradiction]|].
+           intros [[H _]|[H _]]; [left; exact H | contradiction].
+        -- rewrite upd_other by exact N. rewrite upd_other by (apply Hgcell).
+           split.
+           ++ intros H. left. split; [exact H|]. intros ->. apply N. rewrite (Honly b H). reflexivity.
+           ++ intros [[H _]|[_ E1]]; [exact H | subst b; exfalso; apply N; reflexivity].
+      * rewrite (upd_other _ (x, f) (q, g)) by (apply Hgcell).
+        pose proof Hqx as Hmem. apply vmem_obj in Hmem. rewrite Hmem.
+        assert (Hnd : nodup_objs (vals s (q, g))) by (apply (proj2 (Hsh q g)); congruence).
+        destruct (raw_remove_obj_In x (vals s (q, g)) Hnd Hqx) as [Hrm _].
+        destruct (cell_eqb_spec (y, g) (b, g)) as [E|N].
+        -- inversion E; subst b. rewrite upd_same.
+           rewrite (upd_other _ (q, g) (y, g)) by (intros E2; inversion E2; congruence).
+           rewrite upd_other by (apply Hgcell). rewrite raw_append_obj_In.
+           split.
+           ++ intros [H|H]; [|right; split; [exact H | reflexivity]].
+              destruct (Nat.eq_dec a x) as [->|Na]; [right; split; reflexivity | left; split; [exact H | exact Na]].
+           ++ intros [[H _]|[H _]]; [left; exact H | right; exact H].
+        -- rewrite upd_other by exact N.
+           destruct (cell_eqb_spec (q, g) (b, g)) as [E2|N2].
+           ++ inversion E2; subst b. rewrite upd_same. rewrite Hrm.
+              split; [intros [H Hn]; left; split; assumption|].
+              intros [[H Hn]|[_ E1]]; [split; assumption | subst q; exfalso; apply N; reflexivity].
+           ++ rewrite upd_other by exact N2. rewrite upd_other by (apply Hgcell).
+              split.
+              ** intros H. left. split; [exact H|]. intros ->. apply N2. rewrite (Honly b H). reflexivity.
+              ** intros [[H _]|[_ E1]]; [exact H | subst b; exfalso; apply N; reflexivity].
+    + (* x had no partner *)
+      assert (Hnone : forall b0, ~ In (VObj x) (vals s (b0, g))).
+      { intros b0 H. apply (Hsym g f Hgf b0 x) in H. unfold R in H. rewrite Hpv in H.
+        destruct H as [H|[]]. rewrite H in Eq. discriminate. }
+      destruct (cell_eqb_spec (y, g) (b, g)) as [E|N].
+      * inversion E; subst b. rewrite upd_same. rewrite upd_other by (apply Hgcell).
+        rewrite raw_append_obj_In. split.
+        -- intros [H|H]; [|right; split; [exact H | reflexivity]].
+           destruct (Nat.eq_dec a x) as [->|Na]; [right; split; reflexivity | left; split; [exact H | exact Na]].
+        -- intros [[H _]|[H _]]; [left; exact H | right; exact H].
+      * rewrite upd_other by exact N. rewrite upd_other by (apply Hgcell).
+        split.
+        -- intros H. left. split; [exact H|]. intros ->. exact (Hnone b H).
+        -- intros [[H _]|[_ E1]]; [exact H | subst b; exfalso; apply N; reflexivity].
+  - intros h a Hhf Hhg. rewrite HV. cbv zeta.
+    rewrite upd_other by (intros E; inversion E; congruence).
+    destruct (obj_of pv) as [q|].
+    + destruct (y =? q); [apply upd_other; intros E; inversion E; congruence|].
+      destruct (vmem (VObj x) (upd (vals s) (x, f) [VObj y] (q, g))).
+      * rewrite upd_other by (intros E; inversion E; congruence). apply upd_other. intros E; inversion E; congruence.
+      * apply upd_other. intros E; inversion E; congruence.
+    + apply upd_other. intros E; inversion E; congruence.
+Qed.
+End Set1N.
+
+(* ---- n-1: x.f.append(y) / insert with f many-valued and the opposite g single-valued ---- *)
+Section AddN1.
+Variable m : mm.
+Hypothesis Hnc : no_containment m.
+Hypothesis Hwf : wf_opp m.
+
+Theorem add_n1_preserves_sym s x f g pos y :
+  sym m s -> shape m s ->
+  f_opp (fd m f) = Some g -> f <> g ->
+  f_many (fd m f) = true -> f_many (fd m g) = false ->
+  check_elem m f (VObj y) = true ->
+  sym m (snd (coll_add_full m s (x, f) pos (VObj y))).
+Proof.
+  intros Hsym Hsh Hfg Hne Hmf Hsg Hchk.
+  destruct (Hwf f g Hfg) as [Hgf [Href Huf]]. specialize (Huf Hmf).
+  destruct (proj1 (Hsh y g) Hsg) as [cv Hcv].
+  assert (Hsc : single s (y, g) = cv) by (unfold single; rewrite Hcv; reflexivity).
+  assert (HV : forall k, vals (snd (coll_add_full m s (x, f) pos (VObj y))) k =
+     let V1 := match obj_of cv with
+               | Some c => if c =? x then vals s
+                           else if vmem (VObj y) (vals s (c, f)) then upd (vals s) (c, f) (raw_remove (VObj y) (vals s (c, f)))
+                           else vals s
+               | None => vals s end in
+     let V2 := upd V1 (y, g) [VObj x] in
+     upd V2 (x, f) (match pos with Some i => raw_insert true i (VObj y) (V2 (x, f))
+                                 | None => raw_append true (VObj y) (V2 (x, f)) end) k).
+  { intros k. unfold coll_add_full. rewrite Hchk. cbn [negb snd]. unfold link_elem. rewrite Href. cbn [obj_of].
+    rewrite (update_container_id m Hnc). unfold update_opposite_add. rewrite Hfg, Hsg, Hsc.
+    cbn [vals set_isset notify push_log set_vals]. rewrite (vals_set_obj_raw m Hnc). rewrite Huf.
+    destruct (obj_of cv) as [c|]; [|reflexivity].
+    destruct (c =? x); [reflexivity|]. rewrite (vals_coll_remove_raw m Hnc).
+    destruct (vmem (VObj y) (vals s (c, f))); reflexivity. }
+  set (s' := snd (coll_add_full m s (x, f) pos (VObj y))) in *. clear Hsc.
+  assert (Hfcell : forall a b0 : oid, ((a, f) : cell) <> (b0, g)) by (intros a b0 E; inversion E; congruence).
+  (* who holds y through f, before *)
+  assert (Hholder : forall a, In (VObj y) (vals s (a, f)) <-> cv = VObj a).
+  { intros a. rewrite (Hsym f g Hfg a y). unfold R. rewrite Hcv. simpl. intuition congruence. }
+  apply (sym_by_delta m s s' f g (fun _ b => b = y) (fun a b => a = x /\ b = y) Hwf Hsym Hfg Hne).
+  - (* f-side *)
+    intros a b. unfold R. rewrite HV. cbv zeta.
+    destruct (obj_of cv) as [c|] eqn:Ec.
+    + apply obj_of_Some' in Ec.
+      assert (Hcy : In (VObj y) (vals s (c, f))) by (apply Hholder; exact Ec).
+      destruct (Nat.eqb_spec c x) as [Ecx|Ncx].
+      * (* y is already linked to x: nothing moves *)
+        subst c.
+        destruct (cell_eqb_spec (x, f) (a, f)) as [E|N].
+        -- inversion E; subst a. rewrite upd_same. rewrite upd_other by (intros E2; inversion E2; congruence).
+           destruct (Nat.eq_dec b y) as [->|Nb].
+           ++ split; [intros _; right; split; reflexivity|]. intros _.
+              destruct pos as [i|]; [apply In_raw_insert_obj | apply raw_append_obj_In]; right; reflexivity.
+           ++ destruct pos as [i|]; [rewrite In_raw_insert_obj | rewrite raw_append_obj_In]; intuition congruence.
+        -- rewrite upd_other by exact N. rewrite upd_other by (intros E2; inversion E2; congruence).
+           split.
+           ++ intros H. left. split; [exact H|]. intros ->. apply Hholder in H. apply N. congruence.
+           ++ intros [[H _]|[E1 _]]; [exact H | subst a; exfalso; apply N; reflexivity].
+      * pose proof Hcy as Hmem. apply vmem_obj in Hmem. rewrite Hmem.
+        assert (Hnd : nodup_objs (vals s (c, f))) by (apply (proj2 (Hsh c f)); congruence).
+        destruct (raw_remove_obj_In y (vals s (c, f)) Hnd Hcy) as [Hrm _].
+        destruct (cell_eqb_spec (x, f) (a, f)) as [E|N].
+        -- inversion E; subst a. rewrite upd_same. rewrite upd_other by (intros E2; inversion E2; congruence).
+           rewrite (upd_other _ (c, f) (x, f)) by (intros E2; inversion E2; congruence).
+           assert (Hxy : ~ In (VObj y) (vals s (x, f))).
+           { intros H. apply Hholder in H. congruence. }
+           destruct pos as [i|]; [rewrite In_raw_insert_obj | rewrite raw_append_obj_In].
+           ++ split; [intros [H|H]; [left; split; [exact H | intros ->; exact (Hxy H)] | right; split; [reflexivity | exact H]]|].
+              intros [[H _]|[_ H]]; [left; exact H | right; exact H].
+           ++ split; [intros [H|H]; [left; split; [exact H | intros ->; exact (Hxy H)] | right; split; [reflexivity | exact H]]|].
+              intros [[H _]|[_ H]]; [left; exact H | right; exact H].
+        -- rewrite upd_other by exact N. rewrite upd_other by (intros E2; inversion E2; congruence).
+           destruct (cell_eqb_spec (c, f) (a, f)) as [E2|N2].
+           ++ inversion E2; subst a. rewrite upd_same. rewrite Hrm.
+              split; [intros [H Hn]; left; split; assumption|].
+              intros [[H Hn]|[E1 _]]; [split; assumption | subst c; exfalso; apply N; reflexivity].
+           ++ rewrite upd_other by exact N2. split.
+              ** intros H. left. split; [exact H|]. intros ->. apply Hholder in H. apply N2. congruence.
+              ** intros [[H _]|[E1 _]]; [exact H | subst a; exfalso; apply N; reflexivity].
+    + (* y had no partner *)
+      assert (Hnone : forall a0, ~ In (VObj y) (vals s (a0, f))).
+      { intros a0 H. apply Hholder in H. rewrite H in Ec. discriminate. }
+      destruct (cell_eqb_spec (x, f) (a, f)) as [E|N].
+      * inversion E; subst a. rewrite upd_same. rewrite upd_other by (intros E2; inversion E2; congruence).
+        destruct pos as [i|]; [rewrite In_raw_insert_obj | rewrite raw_append_obj_In].
+        -- split; [intros [H|H]; [left; split; [exact H | intros ->; exact (Hnone x H)] | right; split; [reflexivity | exact H]]|].
+           intros [[H _]|[_ H]]; [left; exact H | right; exact H].
+        -- split; [intros [H|H]; [left; split; [exact H | intros ->; exact (Hnone x H)] | right; split; [reflexivity | exact H]]|].
+           intros [[H _]|[_ H]]; [left; exact H | right; exact H].
+      * rewrite upd_other by exact N. rewrite upd_other by (intros E2; inversion E2; congruence).
+        split.
+        -- intros H. left. split; [exact H|]. intros ->. exact (Hnone a H).
+        -- intros [[H _]|[E1 _]]; [exact H | subst a; exfalso; apply N; reflexivity].
+  - (* g-side: only the slot (y, g) changes, to x *)
+    intros a b. unfold R. rewrite HV. cbv zeta.
+    rewrite (upd_other _ (x, f) (b, g)) by (apply Hfcell).
+    assert (H1 : forall k, (forall a0, k <> (a0, f)) ->
+       (match obj_of cv with
+        | Some c => if c =? x then vals s
+                    else if vmem (VObj y) (vals s (c, f)) then upd (vals s) (c, f) (raw_remove (VObj y) (vals s (c, f)))
+                    else vals s
+        | None => vals s end) k = vals s k).
+    { intros k Hk. destruct (obj_of cv) as [c|]; [|reflexivity]. destruct (c =? x); [reflexivity|].
+      destruct (vmem (VObj y) (vals s (c, f))); [|reflexivity]. apply upd_other. intros E. apply (Hk c). symmetry; exact E. }
+    destruct (cell_eqb_spec (y, g) (b, g)) as [E|N].
+    + inversion E; subst b. rewrite upd_same. simpl. intuition congruence.
+    + rewrite upd_other by exact N. rewrite H1 by (intros a0 E; inversion E; congruence).
+      split; [intros H; left; split; [exact H | intros ->; apply N; reflexivity]|].
+      intros [[H _]|[_ E1]]; [exact H | subst b; exfalso; apply N; reflexivity].
+  - intros h a Hhf Hhg. rewrite HV. cbv zeta.
+    rewrite upd_other by (intros E; inversion E; congruence).
+    rewrite upd_other by (intros E; inversion E; congruence).
+    destruct (obj_of cv) as [c|]; [|reflexivity]. destruct (c =? x); [reflexivity|].
+    destruct (vmem (VObj y) (vals s (c, f))); [|reflexivity].
+    apply upd_other. intros E; inversion E; congruence.
+Qed.
+End AddN1.
